@@ -249,7 +249,9 @@ def make_simhighs(base):
             self._sim_time_limit = float("inf")
             self._d = None     # delivered reply: dict(status=name, obj=float, values=list)
             base.setOptionValue(self, "threads", 1)
-            base.setOptionValue(self, "random_seed", 0)
+            # native_seed / native_presolve: used only by the solver-truthfulness cross-check
+            # (sim/crosscheck.py): the same model solved under other HiGHS seeds / without presolve
+            base.setOptionValue(self, "random_seed", int(current().cfg.get("native_seed", 0)))
             base.setOptionValue(self, "time_limit", REAL_CAP_S)
             base.setOptionValue(self, "output_flag", False)
 
@@ -269,6 +271,8 @@ def make_simhighs(base):
                 return highspy.HighsStatus.kOk
             if name == "threads":
                 return highspy.HighsStatus.kOk
+            if name == "presolve" and current().cfg.get("native_presolve"):
+                return base.setOptionValue(self, name, current().cfg["native_presolve"])
             if name == "log_to_console":
                 return base.setOptionValue(self, name, value)
             return base.setOptionValue(self, name, value)
